@@ -174,4 +174,559 @@ theorem pieces_roundtrip (ps : List Piece) (hg : ∀ p ∈ ps, p.good) (st : Boo
   simpa using this
 
 
+theorem mid_slice (pre tb post : Bits) : ((pre ++ tb ++ post).drop pre.length).take tb.length = tb := by
+  rw [List.append_assoc, List.drop_left' rfl, List.take_left' rfl]
+
+/-- reading a fixed-length, non self-delimiting dtype in the middle of a stream -/
+theorem readDT_fixed (d : DT) (tb : Bits) (out : Option Val) (pre post : Bits)
+    (hvar : d.kind.variable = false) (hbl : d.bitlen = some (tb.length : Int))
+    (hget : getVal d.kind tb = .ok out) :
+    readDT (pre ++ tb ++ post) d pre.length = .ok (out, pre.length + tb.length) := by
+  have hlt : ¬ ((tb.length : Int) < 0) := by omega
+  have hlen : ¬ ((pre ++ tb ++ post).length < pre.length + tb.length) := by simp
+  unfold readDT
+  cases hk : d.kind
+  all_goals rw [hk] at hvar hget
+  all_goals first | (exfalso; revert hvar; decide) | skip
+  all_goals simp only [hbl, hlt, if_false, Int.toNat_natCast, mid_slice, hget, hlen, Except.map, if_true, reduceCtorEq]
+
+
+theorem buildInt_ok (bl : Option Int) (signed le : Bool) (i : Int) (tb : Bits)
+    (h : buildInt bl signed le (.int i) = .ok tb) :
+    ∃ n : Nat, 0 < n ∧ bl = some (n : Int) ∧ tb = (if le then byteRev (intToBits n i) else intToBits n i) ∧
+      (if signed then -((2 : Int) ^ (n - 1)) ≤ i ∧ i < 2 ^ (n - 1) else 0 ≤ i ∧ i < 2 ^ n) := by
+  unfold buildInt at h
+  cases bl with
+  | none => simp at h
+  | some l =>
+    simp only [valToInt] at h
+    split at h
+    · cases h
+    · rename_i hl0
+      split at h
+      · cases h
+      · rename_i hlneg
+        have hlpos : 0 < l := by omega
+        refine ⟨l.toNat, by omega, by rw [Int.toNat_of_nonneg (by omega)], ?_⟩
+        cases hib : int2bits i l.toNat signed with
+        | error e => simp [hib] at h
+        | ok b =>
+          simp only [hib, Except.ok.injEq] at h
+          unfold int2bits at hib
+          cases signed with
+          | true =>
+            simp only [if_true] at hib ⊢
+            by_cases hr : i ≥ 2 ^ (l.toNat - 1) ∨ i < -(2 ^ (l.toNat - 1) : Int)
+            · simp [hr] at hib
+            · simp only [hr, if_false, Except.ok.injEq] at hib
+              subst hib
+              exact ⟨h.symm, by omega⟩
+          | false =>
+            simp only [Bool.false_eq_true, if_false] at hib ⊢
+            by_cases hr : i < 0 ∨ i ≥ 2 ^ l.toNat
+            · simp [hr] at hib
+            · simp only [hr, if_false, Except.ok.injEq] at hib
+              subst hib
+              exact ⟨h.symm, by omega⟩
+
+/-- what was set is what is got: the getter inverts the setter on canonical values -/
+theorem setFn_getVal (rec : Str → Except Err Bits) (k : Kind) (l : Option Int) (v : Val) (tb : Bits)
+    (hvar : k.variable = false) (hal : ∀ x, l = some x → k.allows x = true)
+    (hset : setFn rec ⟨k, l⟩ (some v) = .ok tb) (hc : canonical k v = true) :
+    getVal k tb = .ok (some v) := by
+  cases k <;> cases v <;> simp [canonical] at hc <;> simp only [setFn, DT.bitlen] at hset <;> rename_i x
+  all_goals first | (exfalso; revert hvar; decide) | skip
+  -- uint
+  · obtain ⟨n, hn, -, rfl, hr⟩ := buildInt_ok _ _ _ _ _ hset
+    simp only [Bool.false_eq_true, if_false] at hr ⊢
+    have hne : (intToBits n x).isEmpty = false := by
+      rw [List.isEmpty_eq_false_iff]; intro h0; have := congrArg List.length h0; simp [intToBits_length] at this; omega
+    simp only [getVal, hne, Bool.false_eq_true, if_false]
+    rw [bitsToNat_intToBits n x hr.1 hr.2]
+  -- int
+  · obtain ⟨n, hn, -, rfl, hr⟩ := buildInt_ok _ _ _ _ _ hset
+    simp only [Bool.false_eq_true, if_false, if_true] at hr ⊢
+    have hne : (intToBits n x).isEmpty = false := by
+      rw [List.isEmpty_eq_false_iff]; intro h0; have := congrArg List.length h0; simp [intToBits_length] at this; omega
+    simp only [getVal, hne, Bool.false_eq_true, if_false]
+    rw [bitsToInt_intToBits n hn x hr.1 hr.2]
+  -- uintbe
+  · obtain ⟨n, hn, -, rfl, hr⟩ := buildInt_ok _ _ _ _ _ hset
+    simp only [Bool.false_eq_true, if_false] at hr ⊢
+    have hne : (intToBits n x).isEmpty = false := by
+      rw [List.isEmpty_eq_false_iff]; intro h0; have := congrArg List.length h0; simp [intToBits_length] at this; omega
+    simp only [getVal, hne, Bool.false_eq_true, if_false]
+    rw [bitsToNat_intToBits n x hr.1 hr.2]
+  -- intbe
+  · obtain ⟨n, hn, -, rfl, hr⟩ := buildInt_ok _ _ _ _ _ hset
+    simp only [Bool.false_eq_true, if_false, if_true] at hr ⊢
+    have hne : (intToBits n x).isEmpty = false := by
+      rw [List.isEmpty_eq_false_iff]; intro h0; have := congrArg List.length h0; simp [intToBits_length] at this; omega
+    simp only [getVal, hne, Bool.false_eq_true, if_false]
+    rw [bitsToInt_intToBits n hn x hr.1 hr.2]
+  -- uintle
+  · obtain ⟨n, hn, hl, rfl, hr⟩ := buildInt_ok _ _ _ _ _ hset
+    simp only [Bool.false_eq_true, if_false, if_true] at hr ⊢
+    have h8 : n % 8 = 0 := by
+      cases l with
+      | none => simp at hl
+      | some x =>
+        have := hal x rfl
+        simp [Kind.allows] at this
+        simp [Kind.mult] at hl
+        omega
+    have hne : (byteRev (intToBits n x)).isEmpty = false := by
+      rw [List.isEmpty_eq_false_iff]; intro h0; have := congrArg List.length h0
+      simp [byteRev_length, intToBits_length] at this; omega
+    simp only [getVal, hne, Bool.false_eq_true, if_false]
+    rw [byteRev_byteRev _ (by rw [intToBits_length]; exact h8), bitsToNat_intToBits n x hr.1 hr.2]
+  -- intle
+  · obtain ⟨n, hn, hl, rfl, hr⟩ := buildInt_ok _ _ _ _ _ hset
+    simp only [Bool.false_eq_true, if_false, if_true] at hr ⊢
+    have h8 : n % 8 = 0 := by
+      cases l with
+      | none => simp at hl
+      | some x =>
+        have := hal x rfl
+        simp [Kind.allows] at this
+        simp [Kind.mult] at hl
+        omega
+    have hne : (byteRev (intToBits n x)).isEmpty = false := by
+      rw [List.isEmpty_eq_false_iff]; intro h0; have := congrArg List.length h0
+      simp [byteRev_length, intToBits_length] at this; omega
+    simp only [getVal, hne, Bool.false_eq_true, if_false]
+    rw [byteRev_byteRev _ (by rw [intToBits_length]; exact h8), bitsToInt_intToBits n hn x hr.1 hr.2]
+  -- hex
+  · obtain ⟨tb', h1, -, h3⟩ := hex_roundtrip x (List.all_eq_true.mpr hc)
+    simp only [strArg, Except.bind] at hset
+    rw [h1] at hset; cases hset
+    simp [getVal, h3]
+  -- bin
+  · obtain ⟨tb', h1, -, h3⟩ := bin_roundtrip x (List.all_eq_true.mpr hc)
+    simp only [strArg, Except.bind] at hset
+    rw [h1] at hset; cases hset
+    simp [getVal, h3]
+  -- oct
+  · obtain ⟨tb', h1, -, h3⟩ := oct_roundtrip x (List.all_eq_true.mpr hc)
+    simp only [strArg, Except.bind] at hset
+    rw [h1] at hset; cases hset
+    simp [getVal, h3]
+  -- bits
+  · simp only [bitsFromBitstype, bitsCtor] at hset; cases hset; rfl
+  -- bool
+  · simp only [buildBool] at hset; cases hset; rfl
+  -- bytes
+  · simp only [buildBytes] at hset; cases hset; rfl
+
+
+theorem drop_mid (pre tb post : Bits) : (pre ++ tb ++ post).drop pre.length = tb ++ post := by
+  rw [List.append_assoc, List.drop_left' rfl]
+
+/-- the self-delimiting kinds read their own codeword back, wherever it stands -/
+theorem readDT_var (rec : Str → Except Err Bits) (k : Kind) (l : Option Int) (v : Val) (tb : Bits)
+    (hvar : k.variable = true) (hc : canonical k v = true)
+    (hset : setFn rec ⟨k, l⟩ (some v) = .ok tb) (pre post : Bits) :
+    readDT (pre ++ tb ++ post) ⟨k, l⟩ pre.length = .ok (some v, pre.length + tb.length) := by
+  cases k <;> cases v <;> simp [canonical] at hc <;> simp only [setFn, valToInt, Except.bind, Except.map] at hset <;> rename_i i
+  all_goals first | (exfalso; revert hvar; decide) | skip
+  · -- ue
+    unfold C10.ueEncode at hset
+    split at hset
+    · cases hset
+    · rename_i hi
+      cases hset
+      have := C10.readUE_encode [] post i.toNat
+      simp only [List.nil_append, List.length_nil, Nat.zero_add] at this
+      simp only [readDT, C10.streamRead, drop_mid, this, Except.map]
+      rw [Int.toNat_of_nonneg (by omega)]
+  · -- se
+    cases hset
+    have := C10.readSE_encode [] post i
+    simp only [List.nil_append, List.length_nil, Nat.zero_add] at this
+    simp only [readDT, C10.streamRead, drop_mid, this, Except.map]
+  · -- uie
+    unfold C10.uieEncode at hset
+    split at hset
+    · cases hset
+    · rename_i hi
+      cases hset
+      have := C10.readUIE_encode [] post i.toNat
+      simp only [List.nil_append, List.length_nil, Nat.zero_add] at this
+      simp only [readDT, C10.streamRead, drop_mid, this, Except.map]
+      rw [Int.toNat_of_nonneg (by omega)]
+  · -- sie
+    cases hset
+    have := C10.readSIE_encode [] post i
+    simp only [List.nil_append, List.length_nil, Nat.zero_add] at this
+    simp only [readDT, C10.streamRead, drop_mid, this, Except.map]
+
+/-- for a length-less dtype the setter does not look at the length (the integer kinds refuse): the same bits come out
+    with the length the stretchy computation will assign -/
+theorem setFn_stretchy (rec : Str → Except Err Bits) (k : Kind) (v : Option Val) (tb : Bits)
+    (hset : setFn rec ⟨k, none⟩ v = .ok tb) (x : Int) (hx : (tb.length : Int) = x * k.mult) :
+    setFn rec ⟨k, some x⟩ v = .ok tb := by
+  cases k <;> cases v <;> simp only [setFn, DT.bitlen, Option.map, buildInt] at hset ⊢ <;>
+    first | exact hset | (cases hset; done) | skip
+  -- pad
+  all_goals
+    cases hset
+    simp [Kind.mult] at hx
+    have : ¬ (x < 0) := by omega
+    simp [this, ← hx]
+
+
+theorem getDtypeK_inv (k : Kind) (len : Option Int) (d : DT) (h : getDtypeK k len = .ok d) :
+    d.kind = k ∧ (∀ x, d.len = some x → k.allows x = true) ∧ (k.variable = true → d.len = none) := by
+  unfold getDtypeK at h
+  cases len with
+  | none =>
+    simp only [Except.ok.injEq] at h
+    subst h
+    refine ⟨rfl, ?_, ?_⟩
+    · intro x hx
+      by_cases hb : k = .bool
+      · subst hb; simp at hx; subst hx; rfl
+      · simp [hb] at hx
+    · intro hv
+      have : k ≠ .bool := by intro e; subst e; simp [Kind.variable] at hv
+      simp [this]
+  | some l =>
+    simp only at h
+    split at h
+    · cases h
+    · rename_i hal
+      split at h
+      · cases h
+      · rename_i hv
+        cases h
+        refine ⟨rfl, ?_, ?_⟩
+        · intro x hx; simp at hx; subst hx; simpa using hal
+        · intro hv'; simp [hv'] at hv
+
+theorem mkDtype_inv (name : Str) (len : Option Int) (d : DT) (h : mkDtype name len = .ok d) :
+    ∃ k l, getDtypeK k l = .ok d := by
+  unfold mkDtype at h
+  cases len with
+  | some l =>
+    simp only [getDtype] at h
+    cases hk : kindOfName (String.ofList name) with
+    | error e => simp [hk] at h
+    | ok k => simp only [hk] at h; exact ⟨k, _, h⟩
+  | none =>
+    simp only at h
+    cases hp : parseNameLength (removeWs name) [] with
+    | error e => simp [hp] at h
+    | ok r =>
+      obtain ⟨n, l⟩ := r
+      simp only [hp, getDtype] at h
+      cases hk : kindOfName (String.ofList n) with
+      | error e => simp [hk] at h
+      | ok k => simp only [hk] at h; exact ⟨k, _, h⟩
+
+theorem tokDtype_inv (kw : Kw) (t : Tok) (d : DT) (h : tokDtype kw t = .ok d) :
+    (∀ x, d.len = some x → d.kind.allows x = true) ∧ (d.kind.variable = true → d.len = none) := by
+  unfold tokDtype at h
+  cases hr : resolveLen kw t.len with
+  | error e => simp [hr] at h
+  | ok l =>
+    simp only [hr] at h
+    obtain ⟨k, l', hk⟩ := mkDtype_inv _ _ _ h
+    obtain ⟨h1, h2, h3⟩ := getDtypeK_inv k l' d hk
+    subst h1
+    exact ⟨h2, h3⟩
+
+theorem tokDtype_pad (kw : Kw) (len : Option LenV) (val : Option Str) (d : DT)
+    (h : tokDtype kw ⟨"pad".toList, len, val⟩ = .ok d) : d.kind = .pad := by
+  unfold tokDtype at h
+  cases hr : resolveLen kw len with
+  | error e => simp [hr] at h
+  | ok l =>
+    simp only [hr] at h
+    cases l with
+    | none =>
+      have : mkDtype "pad".toList none = .ok ⟨.pad, none⟩ := by decide
+      rw [this] at h; cases h; rfl
+    | some x =>
+      simp only [mkDtype, getDtype] at h
+      have : kindOfName (String.ofList "pad".toList) = .ok .pad := by decide
+      rw [this] at h
+      exact (getDtypeK_inv _ _ _ h).1
+
+/-- a plain token's bits are what the dtype's setter produces, of the dtype's length if it has one -/
+theorem tokBits_setFn (kw : Kw) (t : Tok) (pv : Option Val) (tb : Bits) (d : DT)
+    (hplain : t.plain kw = true) (hd : tokDtype kw t = .ok d)
+    (hcanon : (t.name = "pad".toList ∧ pv = none) ∨ (∃ v, pv = some v ∧ canonical d.kind v = true))
+    (h : tokBits kw t pv = .ok tb) :
+    setFn strToBits d pv = .ok tb ∧ (∀ l, d.bitlen = some l → (tb.length : Int) = l) := by
+  simp only [Tok.plain, Bool.and_eq_true, Option.isNone_iff_eq_none, Bool.not_eq_true'] at hplain
+  obtain ⟨⟨hval, hkw⟩, hlit⟩ := hplain
+  unfold tokBits at h
+  unfold tokDtype at hd
+  simp only [hkw, Bool.false_eq_true, false_and, if_false, hval, resolveVal] at h
+  cases hr : resolveLen kw t.len with
+  | error e => simp [hr] at hd
+  | ok len =>
+    simp only [hr] at h hd
+    by_cases hbits : t.name = "bits".toList
+    · simp only [hbits, if_true] at h
+      rw [hbits] at hd
+      have hd' : d = ⟨.bits, len⟩ := by
+        cases len with
+        | none =>
+          have : mkDtype "bits".toList none = .ok ⟨.bits, none⟩ := by decide
+          rw [this] at hd; cases hd; rfl
+        | some x =>
+          simp only [mkDtype, getDtype] at hd
+          have : kindOfName (String.ofList "bits".toList) = .ok .bits := by decide
+          rw [this] at hd
+          simp [getDtypeK, Kind.allows, Kind.variable] at hd
+          exact hd.symm
+      subst hd'
+      rcases hcanon with ⟨hp, -⟩ | ⟨v, rfl, hc⟩
+      · rw [hbits] at hp; exact absurd hp (by decide)
+      · cases v <;> simp [canonical] at hc
+        rename_i x
+        simp only [bitsCtor] at h
+        cases len with
+        | none =>
+          simp only [Except.ok.injEq] at h; subst h
+          exact ⟨by simp [setFn, bitsFromBitstype, bitsCtor], by intro l hl; simp [DT.bitlen] at hl⟩
+        | some l =>
+          simp only at h
+          split at h
+          · cases h
+          · rename_i hne
+            cases h
+            refine ⟨by simp [setFn, bitsFromBitstype, bitsCtor], ?_⟩
+            intro l' hl'
+            simp [DT.bitlen, Kind.mult] at hl'
+            simp at hne
+            omega
+    · simp only [hbits, if_false] at h
+      unfold bitstoreFromToken at h
+      simp only [hlit, Bool.false_eq_true, if_false, hd] at h
+      have hnv : ¬ (pv.isNone = true ∧ t.name ≠ "pad".toList) := by
+        rcases hcanon with ⟨hp, -⟩ | ⟨v, rfl, -⟩
+        · intro ⟨_, b⟩; exact b hp
+        · intro ⟨a, _⟩; simp at a
+      simp only [hnv, if_false] at h
+      unfold buildDT at h
+      cases hs : setFn strToBits d pv with
+      | error e => simp [hs] at h
+      | ok b =>
+        simp only [hs] at h
+        cases hbl : d.bitlen with
+        | none =>
+          simp only [hbl] at h
+          have : b = tb := by
+            cases len <;> simpa using h
+          subst this
+          exact ⟨rfl, by intro l hl; cases hl⟩
+        | some l =>
+          simp only [hbl] at h
+          by_cases hne : (b.length : Int) ≠ l
+          · simp [hne] at h
+          · simp only [hne, if_false] at h
+            have : b = tb := by
+              cases len <;> simp [hne] at h <;> exact h
+            subst this
+            exact ⟨rfl, by intro l' hl'; cases hl'; simpa using hne⟩
+
+/-- a length-less token: the number of bits produced is a whole number of units and an allowed length -/
+theorem stretchy_facts (rec : Str → Except Err Bits) (k : Kind) (pv : Option Val) (tb : Bits)
+    (hset : setFn rec ⟨k, none⟩ pv = .ok tb)
+    (hc : k = .pad ∨ ∃ v, pv = some v ∧ canonical k v = true) :
+    tb.length % k.mult = 0 ∧ k.allows ((tb.length / k.mult : Nat) : Int) = true := by
+  rcases hc with rfl | ⟨v, rfl, hc⟩
+  · simp only [setFn, DT.bitlen, Option.map] at hset
+    cases hset; simp [Kind.mult, Kind.allows]
+  · cases k <;> cases v <;> simp [canonical] at hc <;>
+      simp only [setFn, DT.bitlen, Option.map, buildInt] at hset <;> rename_i x
+    all_goals first | (cases hset; done) | skip
+    all_goals simp only [Kind.mult, Kind.allows, Nat.mod_one, Nat.div_one, true_and]
+    · -- hex
+      obtain ⟨tb', h1, h2, -⟩ := hex_roundtrip x (List.all_eq_true.mpr hc)
+      simp only [strArg, Except.bind] at hset
+      rw [h1] at hset; cases hset
+      rw [h2]; simp
+    · -- oct
+      obtain ⟨tb', h1, h2, -⟩ := oct_roundtrip x (List.all_eq_true.mpr hc)
+      simp only [strArg, Except.bind] at hset
+      rw [h1] at hset; cases hset
+      rw [h2]; simp
+    · -- bool
+      simp only [buildBool] at hset; cases hset; rfl
+    · -- bytes
+      simp only [buildBytes] at hset; cases hset
+      exact ⟨hc, trivial⟩
+
+
+theorem getVal_pad (tb : Bits) : getVal .pad tb = .ok none := rfl
+
+/-- a packed plain token with a canonical value is a good piece -/
+theorem token_piece (kw : Kw) (t : Tok) (pv : Option Val) (tb : Bits) (d : DT)
+    (hplain : t.plain kw = true) (hd : tokDtype kw t = .ok d)
+    (hcanon : (t.name = "pad".toList ∧ pv = none) ∨ (∃ v, pv = some v ∧ canonical d.kind v = true))
+    (h : tokBits kw t pv = .ok tb) : Piece.good ⟨d, tb, pv⟩ := by
+  obtain ⟨hset, hlen⟩ := tokBits_setFn kw t pv tb d hplain hd hcanon h
+  obtain ⟨hallow, hvarlen⟩ := tokDtype_inv kw t d hd
+  -- the kind-level form of `hcanon`
+  have hck : d.kind = .pad ∧ pv = none ∨ ∃ v, pv = some v ∧ canonical d.kind v = true := by
+    rcases hcanon with ⟨hp, hn⟩ | hv
+    · left
+      refine ⟨?_, hn⟩
+      obtain ⟨n, l, v⟩ := t
+      simp only at hp; subst hp
+      exact tokDtype_pad kw l v d hd
+    · exact Or.inr hv
+  -- what the getter returns for these bits
+  have hget : ∀ l, (∀ x, l = some x → d.kind.allows x = true) → d.kind.variable = false →
+      setFn strToBits ⟨d.kind, l⟩ pv = .ok tb → getVal d.kind tb = .ok pv := by
+    intro l hal hv hs
+    rcases hck with ⟨hp, hn⟩ | ⟨v, rfl, hc⟩
+    · rw [hp, hn]; rfl
+    · exact setFn_getVal strToBits d.kind l v tb hv hal hs hc
+  unfold Piece.good
+  obtain ⟨k, len⟩ := d
+  simp only at *
+  cases hst : (DT.mk k len).stretchy with
+  | true =>
+    simp only [if_true]
+    simp only [DT.stretchy, Bool.and_eq_true, Option.isNone_iff_eq_none, Bool.not_eq_true'] at hst
+    obtain ⟨hln, hv⟩ := hst
+    subst hln
+    have hc' : k = .pad ∨ ∃ v, pv = some v ∧ canonical k v = true := by
+      rcases hck with ⟨hp, -⟩ | hv
+      · exact Or.inl hp
+      · exact Or.inr hv
+    obtain ⟨hrem, hal⟩ := stretchy_facts strToBits k pv tb hset hc'
+    have hx : (tb.length : Int) = ((tb.length / k.mult : Nat) : Int) * k.mult := by
+      have := Nat.div_mul_cancel (Nat.dvd_of_mod_eq_zero hrem)
+      exact_mod_cast this.symm
+    refine ⟨hrem, ⟨k, some ((tb.length / k.mult : Nat) : Int)⟩, ?_, ?_⟩
+    · rw [getDtypeK]; simp only [hal, Bool.not_true, Bool.false_eq_true, if_false, hv]
+    · intro pre post
+      have hs' := setFn_stretchy strToBits k pv tb hset _ hx
+      apply readDT_fixed ⟨k, some _⟩ tb pv pre post hv
+      · simp only [DT.bitlen, Option.map]; rw [← hx]
+      · exact hget _ (by intro x hx'; cases hx'; exact hal) hv hs'
+  | false =>
+    simp only [Bool.false_eq_true, if_false]
+    cases hv : k.variable with
+    | true =>
+      refine ⟨?_, by intro h; cases h⟩
+      intro pre post
+      rcases hck with ⟨hp, -⟩ | ⟨v, rfl, hc⟩
+      · subst hp; simp [Kind.variable] at hv
+      · exact readDT_var strToBits k len v tb hv hc hset pre post
+    | false =>
+      cases len with
+      | none => simp [DT.stretchy, hv] at hst
+      | some l =>
+        have hbl : (DT.mk k (some l)).bitlen = some (tb.length : Int) := by
+          have := hlen _ rfl
+          simp only [DT.bitlen, Option.map] at this ⊢
+          rw [this]
+        refine ⟨?_, fun _ => hbl⟩
+        intro pre post
+        exact readDT_fixed ⟨k, some l⟩ tb pv pre post hv hbl (hget (some l) hallow hv hset)
+
+/-- the pieces of a packed, plain, conforming token list -/
+theorem pieces_of_pack (kw : Kw) (ts : List Tok) (vs : List Val) (b : Bits) (ds : List DT)
+    (hplain : ∀ t ∈ ts, t.plain kw = true)
+    (hd : tokDtypes kw ts = .ok ds)
+    (hc : conform kw ts vs = true)
+    (hp : packT kw ts vs = .ok b) :
+    ∃ ps : List Piece, dts ps = ds ∧ flat ps = b ∧ outs ps = vs ∧ ∀ p ∈ ps, p.good := by
+  induction ts generalizing vs b ds with
+  | nil =>
+    cases vs with
+    | nil =>
+      simp [packT] at hp; simp [tokDtypes] at hd
+      subst hp; subst hd
+      exact ⟨[], rfl, rfl, rfl, by simp⟩
+    | cons v vs => simp [conform] at hc
+  | cons t ts ih =>
+    have hpl := hplain t (by simp)
+    have hplr : ∀ t' ∈ ts, t'.plain kw = true := fun t' h' => hplain t' (by simp [h'])
+    rw [tokDtypes.eq_def] at hd
+    simp only at hd
+    cases hdt : tokDtype kw t with
+    | error e => simp [hdt] at hd
+    | ok d =>
+      simp only [hdt] at hd
+      cases hdr : tokDtypes kw ts with
+      | error e => simp [hdr, Except.map] at hd
+      | ok dr =>
+        simp only [hdr, Except.map, Except.ok.injEq] at hd
+        subst hd
+        have hval : t.val = none := by
+          simp only [Tok.plain, Bool.and_eq_true, Option.isNone_iff_eq_none] at hpl; exact hpl.1.1
+        have hkw : kw.has t.name = false := by
+          simp only [Tok.plain, Bool.and_eq_true, Bool.not_eq_true'] at hpl; exact hpl.1.2
+        have hneeds : t.needsValue kw = decide (t.name ≠ "pad".toList) := by
+          simp [Tok.needsValue, hkw, hval]
+        rw [conform.eq_def] at hc
+        simp only at hc
+        by_cases hpad : t.name = "pad".toList
+        · simp only [hpad, if_true] at hc
+          rcases packT_ok_cons kw t ts vs b hp with ⟨hn, -⟩ | ⟨-, tb, r, htb, hpr, rfl⟩
+          · rw [hneeds] at hn; exact absurd hpad (of_decide_eq_true hn)
+          · obtain ⟨ps, h1, h2, h3, h4⟩ := ih vs r dr hplr hdr hc hpr
+            have hg := token_piece kw t none tb d hpl hdt (Or.inl ⟨hpad, rfl⟩) htb
+            refine ⟨⟨d, tb, none⟩ :: ps, ?_, ?_, ?_, ?_⟩
+            · simp [dts] at h1 ⊢; exact h1
+            · rw [flat_cons, h2]
+            · rw [outs_cons, h3]; rfl
+            · intro p hp'
+              rcases List.mem_cons.mp hp' with rfl | hp'
+              · exact hg
+              · exact h4 p hp'
+        · simp only [hpad, if_false] at hc
+          rcases packT_ok_cons kw t ts vs b hp with ⟨-, v, vs', l, tb, r, rfl, -, htb, hpr, rfl⟩ | ⟨hn, -⟩
+          · simp only [hdt, Bool.and_eq_true] at hc
+            obtain ⟨hcv, hcr⟩ := hc
+            obtain ⟨ps, h1, h2, h3, h4⟩ := ih vs' r dr hplr hdr hcr hpr
+            have hg := token_piece kw t (some v) tb d hpl hdt (Or.inr ⟨v, rfl, hcv⟩) htb
+            refine ⟨⟨d, tb, some v⟩ :: ps, ?_, ?_, ?_, ?_⟩
+            · simp [dts] at h1 ⊢; exact h1
+            · rw [flat_cons, h2]
+            · rw [outs_cons, h3]; rfl
+            · intro p hp'
+              rcases List.mem_cons.mp hp' with rfl | hp'
+              · exact hg
+              · exact h4 p hp'
+          · rw [hneeds] at hn; exact absurd (not_not.mp (of_decide_eq_false hn)) hpad
+
+theorem unpack_pack' (kw : Kw) (ts : List Tok) (vs : List Val) (b : Bits) (ds : List DT) (st : Bool) (after : Int)
+    (hplain : ∀ t ∈ ts, t.plain kw = true)
+    (hd : tokDtypes kw ts = .ok ds)
+    (hwf : pass1 ds false 0 = .ok (st, after))
+    (hc : conform kw ts vs = true)
+    (hp : packT kw ts vs = .ok b) :
+    readDtypeList b ds 0 = .ok (vs, b.length) := by
+  obtain ⟨ps, rfl, rfl, rfl, hg⟩ := pieces_of_pack kw ts vs b ds hplain hd hc hp
+  exact pieces_roundtrip ps hg st after hwf
+
+theorem tokBits_not_allowed (kw : Kw) (name : Str) (n : Int) (v : Val) (k : Kind)
+    (hb : (name = "bits".toList) = False) (hlit : literalNames.contains name = false)
+    (hk : kindOfName (String.ofList name) = .ok k) (hal : k.allows n = false) :
+    tokBits kw ⟨name, some (.int n), none⟩ (some v) = .error .value := by
+  unfold tokBits
+  simp only [Option.isNone_some, Bool.false_eq_true, and_false, false_and, if_false, resolveLen, resolveVal, hb,
+    bitstoreFromToken, hlit, mkDtype, getDtype, hk, getDtypeK, hal, Bool.not_false, if_true]
+
+theorem hex_wrong_size' (kw : Kw) (n : Nat) (s : Str) (hs : s.all isLowerHex = true) (h : 4 * s.length ≠ n) :
+    tokBits kw ⟨"hex".toList, some (.int n), none⟩ (some (.str s)) = .error .value := by
+  obtain ⟨tb, h1, h2, -⟩ := hex_roundtrip s hs
+  cases hal : Kind.hex.allows (n : Int) with
+  | true =>
+    rw [tokBits_plain_fixed kw _ _ _ .hex (by decide) (by decide) (by decide) hal (by rfl)]
+    have hm : Kind.hex.mult = 1 := rfl
+    have : ¬ ((tb.length : Int) = n) := by omega
+    simp [buildDT, setFn, DT.bitlen, strArg, Except.bind, h1, hm, this]
+  | false =>
+    exact tokBits_not_allowed kw _ _ _ .hex (by decide) (by decide) (by decide) hal
+
+
 end BM.C05
